@@ -861,10 +861,20 @@ func (c *CertificateContext) Sign(alg SignatureAlgorithm) (*Certificate, error) 
 		return nil, errors.New("cert: provided IssuerContext is nil. can't sign")
 	}
 
+	//determine hash and signature algorithm
+	hashAlgId, hashAlg, sigAlgOid, wantKey, err := resolveAlg(alg)
+	if err != nil {
+		return nil, err
+	}
+
+	out.SignatureAlgorithm.Algorithm = sigAlgOid
+	if wantKey == rsaKey {
+		//the PKCS#1 v1.5 algorithm identifiers carry NULL parameters (RFC 3279, RFC 4055)
+		out.SignatureAlgorithm.Parameters = asn1.NullRawValue
+	}
+
 	if out.TBSCertificate.SignatureAlgorithm.Algorithm == nil {
-		out.TBSCertificate.SignatureAlgorithm = pkix.AlgorithmIdentifier{
-			Algorithm: sigAlgOids[alg],
-		}
+		out.TBSCertificate.SignatureAlgorithm = out.SignatureAlgorithm
 	}
 	out.TBSCertificate.Issuer = c.Issuer.IssuerDn
 
@@ -885,18 +895,8 @@ func (c *CertificateContext) Sign(alg SignatureAlgorithm) (*Certificate, error) 
 		return nil, err
 	}
 
-	//determine hash algorithm
-	var digest []byte
-	var hashAlgId crypto.Hash
-	var hashAlg hash.Hash
-	var wantKey keyType
-	hashAlgId, hashAlg, out.SignatureAlgorithm.Algorithm, wantKey, err = resolveAlg(alg)
-	if err != nil {
-		return nil, err
-	}
-
 	hashAlg.Write(b)
-	digest = hashAlg.Sum(nil)
+	digest := hashAlg.Sum(nil)
 
 	//convert key and sign
 	var signature []byte
